@@ -95,6 +95,12 @@ CHECKS.update({
    text="Ageing, priorities and clock advances are generated; every single sync step's pick must be None iff nothing is eligible and otherwise minimal in (priority, latest change) among the eligible entries; every provider mutation must come at least the ageing interval after the object's last event notification unless its priority is negative; with one file failing for ever, k healthy files must be propagated within 20k+50 sync steps.",
    note=E_NOTE + " KF-37/38 (early propagation via set_aged / via the other side's flag) and KF-39 (livelock with prioritize and rmtree) are open findings, fenced off and replayed."),
 })
+CHECKS.update({
+ "C20": dict(engine="E-engine-harness", category="exploration", design_ref="2/C20",
+   technique="model-based property testing of SmartCloudSync: generated remote/local user ops, application requests/un-requests (by path and by id) and folder listings interleaved with single engine iterations; safety invariant after every step (what may be present locally, which remote objects the engine may download, no remote deletion) and reference trees + listing model at every quiet point",
+   text="A small model tracks what users made of the remote tree, which files were created locally, requested or match the auto-sync predicate; after every engine step and application call the local tree may only contain such files, the engine's call log may only download such files and may never delete remotely; at quiet both trees and every folder listing (name -> is_synced) must equal the model.",
+   note=E_NOTE + " Renames and local deletes are outside the generated domain."),
+})
 NOT_YET = {}
 
 def main():
